@@ -40,7 +40,14 @@ type OpRefs []OpRef
 
 func (o OpRefs) Len() int           { return len(o) }
 func (o OpRefs) Swap(i, j int)      { o[i], o[j] = o[j], o[i] }
-func (o OpRefs) Less(i, j int) bool { return o[i].Key < o[j].Key }
+func (o OpRefs) Less(i, j int) bool {
+	if o[i].Key == o[j].Key {
+		// operations may share the same generated key (e.g. GET /a-b and GET /a_b): keep a total order
+		return o[i].Method+" "+o[i].Path < o[j].Method+" "+o[j].Path
+	}
+
+	return o[i].Key < o[j].Key
+}
 
 // Provider knows how to collect operations from a spec
 type Provider interface {
